@@ -62,7 +62,8 @@ def run_C05(ctx, rep):
 def run_C02(ctx, rep):
     lib_rules.check_L1(ctx, rep)
     lib_rules.check_L13(ctx, rep)
-    gen_driver.run_gen(ctx, rep, ['G1G3', 'G2G7', 'G5', 'G6', 'G10'], only_par=True, floors={'G1': 100, 'G6': 15, 'G10': 15, 'G4': 4})
+    gen_driver.run_gen(ctx, rep, ['G1G3', 'G2G7', 'G5', 'G6', 'G10', 'G12'], only_par=True, floors={'G1': 100, 'G6': 15, 'G10': 15, 'G4': 4})
+    gen_driver.run_ser_par_twins(ctx, rep)
 
 
 def run_C03(ctx, rep):
@@ -218,7 +219,8 @@ PROPS = {
                        '(G1, L1), atomic change flag set by every inserting block and loop exit after the merges (G2), version protocol (G5), '
                        'freeze typestate - readers see frozen, writers unfrozen indices, simulated over two runs (G6), acyclic lock order and no '
                        'guard across a fork/join (G10), re-queued lattice rows go to idempotent index types (G4), is_empty of the index views is '
-                       'exact (L13). NOT decided: DashMap / boxcar / rayon internals, user code panics.',
+                       'exact (L13) and the empty-relation shortcut sound (G12); the serial and the parallel expansion of every corpus program '
+                       'reconstruct to the same logical rule variants (T.SP). NOT decided: DashMap / boxcar / rayon internals, user code panics.',
         'assumptions': ['dashmap, boxcar, rayon are linearizable / deadlock free', 'user expressions do not panic or block'],
         'rule_text': 'one instance = one append site, one typestate requirement, one guard, one merge, one library implementation',
     },
